@@ -300,7 +300,10 @@ func (e *clEngine) exportImport() {
 			continue
 		}
 		if d == "61:missing" && staleOnly {
+			// raw-store only (Props/C19CL.cl_prune_unobservable: no message or query reads them): the running chain keeps the six uptime-
+			// accumulator records of a position after the position is deleted, the export lists the records of live positions only
 			o.Count("exportimport.stale-uptime-records-of-deleted-positions-dropped")
+			twLoss(o, "cl:export-import:store-differs:dead-uptime-records-pruned", fmt.Sprintf("%d uptime-accumulator position records of deleted positions in the store before ExportGenesis, none after InitGenesis, e.g. %v", n, sample))
 			continue
 		}
 		if strings.HasPrefix(d, "0e:") { // FullRangeLiquidityPrefix: the running total is rebuilt as the sum over full-range positions
